@@ -322,7 +322,7 @@ func (a *attacker) randomDyn() []byte {
 
 var c12moves = []string{"dup-registerEvent", "conflicting-unregister", "foreign-ids", "wrong-object-ids", "garbage-property", "mutated-directory-call",
 	"unknown-targets", "all-message-types", "big-payload", "flood-drain-late", "flood-abrupt-close", "cut-mid-message", "reauthenticate-racing-calls",
-	"documented-removal", "mutated-arguments", "subscribe-then-vanish", "hostile-signatures", "garbage-bytes", "stats-and-trace", "terminate-under-flood", "post-flood-subscriptions"}
+	"documented-removal", "mutated-arguments", "subscribe-then-vanish", "hostile-signatures", "garbage-bytes", "stats-and-trace", "terminate-under-flood", "post-flood-subscriptions", "answers-from-a-client"}
 
 func (a *attacker) move(name string) {
 	r := a.rng
@@ -598,6 +598,31 @@ func (a *attacker) move(name string) {
 			<-done
 		}
 		a.logf("%d pipelined one-way registerEvent / unregisterEvent / metaObject messages to %d/%d", n, s, o)
+	case "answers-from-a-client":
+		// Reply / Error / Event / Cancelled frames sent BY the client (nobody waits for them on the server),
+		// carrying well-formed dynamic values of every kind, plain strings, and garbage
+		s, o := a.target()
+		dyn := func(t *rc.Type, v interface{}) []byte { return rc.Encode(rc.T(rc.Dyn), rc.DynV{T: t, V: v}) }
+		payloads := [][]byte{
+			dyn(rc.T(rc.Int32), int32(42)), dyn(rc.T(rc.String), "an error description"), dyn(rc.T(rc.Bool), true), dyn(rc.T(rc.Double), 1.5),
+			dyn(rc.ListOf(rc.T(rc.String)), []interface{}{"a", "b"}), dyn(rc.T(rc.Uint64), uint64(7)), dyn(rc.T(rc.Void), rc.VoidV{}),
+			rc.Encode(rc.T(rc.String), "bare string"), nil, {0xff, 0xff, 0xff, 0xff}, workArgs(1, "x"),
+		}
+		for _, t := range []uint8{qnet.Error, qnet.Reply, qnet.Event, qnet.Cancelled} {
+			for k := 0; k < 4; k++ {
+				p := payloads[r.Intn(len(payloads))]
+				switch r.Intn(3) {
+				case 0:
+					a.send(t, s, o, work, p)
+				case 1:
+					a.send(t, 1, 1, a.ch.dir["services"], p)
+				default:
+					a.send(t, 0, 0, 8, p)
+				}
+			}
+		}
+		a.logf("Reply / Error / Event / Cancelled frames with dynamic values of every kind sent by the client")
+		a.drain(30 * time.Millisecond)
 	case "stats-and-trace":
 		// the generic statistics / tracing actions of every object (80-85), then traffic that is
 		// accounted and traced: known, unknown and failing actions, and a subscription to the trace signal
@@ -845,7 +870,7 @@ func (r *rawConn) callNoDeadline(service, obj, action uint32, payload []byte, _ 
 }
 
 func c12(c *wk.Ctx) {
-	c.Note("rule", "the server (directory + 2 Probe services x 3 objects, freshly generated stubs) runs in a child process of the worker; each case is a PRNG sequence of 2-7 moves by one authenticated hostile client from a grammar of 21 move kinds (incl. the generic statistics / tracing actions, a documented removal in the middle of a burst and a burst of one-way subscriptions) (duplicate / conflicting / foreign registerEvent and unregisterEvent, wrong object ids, random dynamic values at property/setProperty, directory calls with mutated ServiceInfo, unknown actions/objects/services, all eight message types, payloads up to the limit, floods of 2-10k calls drained late or cut by an abrupt close, disconnects mid-header/mid-payload, authenticate frames racing calls, hostile length fields and signatures, the documented removals terminate()/unregisterService(), random bytes). After each sequence a fresh connection authenticates, lists the directory and calls work() on every object the sequence did not legitimately remove. Oracle: the child is alive (exit or fatal error = violation with its stderr), every probe returns f(token); a probe that does not return is decided by the child's own quiescence detector (blocked forever = violation), a CPU / memory budget read from /proc, or a watchdog (inconclusive). Race reports of the child are violations. Distinct non-trivial = distinct move sequences after which at least 4 objects were probed.")
+	c.Note("rule", "the server (directory + 2 Probe services x 3 objects, freshly generated stubs) runs in a child process of the worker; each case is a PRNG sequence of 2-7 moves by one authenticated hostile client from a grammar of 22 move kinds (incl. the generic statistics / tracing actions, a documented removal in the middle of a burst, a burst of one-way subscriptions and answer-type frames carrying dynamic values of every kind) (duplicate / conflicting / foreign registerEvent and unregisterEvent, wrong object ids, random dynamic values at property/setProperty, directory calls with mutated ServiceInfo, unknown actions/objects/services, all eight message types, payloads up to the limit, floods of 2-10k calls drained late or cut by an abrupt close, disconnects mid-header/mid-payload, authenticate frames racing calls, hostile length fields and signatures, the documented removals terminate()/unregisterService(), random bytes). After each sequence a fresh connection authenticates, lists the directory and calls work() on every object the sequence did not legitimately remove. Oracle: the child is alive (exit or fatal error = violation with its stderr), every probe returns f(token); a probe that does not return is decided by the child's own quiescence detector (blocked forever = violation), a CPU / memory budget read from /proc, or a watchdog (inconclusive). Race reports of the child are violations. Distinct non-trivial = distinct move sequences after which at least 4 objects were probed.")
 	var ch *child
 	defer func() {
 		if ch != nil {
